@@ -39,7 +39,7 @@ Hypothesis Hfound : forall k, In k res ->
   exists r, spec (parent (bk_key k)) = Some r /\ kids (bk_key k) = r_kids terms r.
 (* contracts *)
 Hypothesis T_neg : forall c m, m < 0 -> T c m = dflt.
-Hypothesis op_neg : forall r p o n, n < 0 -> r_op terms r p o n = dflt.
+Hypothesis op_neg : forall c r, spec c = Some r -> forall p o n, n < 0 -> r_op terms r p o n = dflt.
 Hypothesis all_local : forall c r, spec c = Some r -> local terms r.
 Hypothesis all_genuine : forall c r, spec c = Some r -> genuine terms T c r.
 
@@ -81,3 +81,46 @@ Proof.
 Qed.
 
 End Pipeline.
+
+(* With termination of the table method (C03) and totality of the extractor (C11) the two
+   "the run returned" hypotheses disappear: for EVERY list of inserted keys, if the total run of
+   the table method reports the start class as pumping, the extractor DOES return a rule set, it
+   has one rule per class, and any specification that gives each extracted key a genuine, local
+   rule with that key evaluates to the true counts of the start class. *)
+From CSS Require Import Forest.TerminationDefs Forest.TerminationRun Forest.ExtractorTermination
+  Forest.Positional Forest.PositionalExtractor Forest.PositionalTotal.
+
+Section PipelineTotal.
+Variable terms : Type.
+Variable dflt : terms.
+Variable T : nat -> Z -> terms.
+Variables (pick : list nat -> nat) (fuelx : nat) (root : nat) (ks : list bkey).
+Hypothesis Hbuckets : forall k, In k ks -> (bk_bucket k < 4)%nat.
+Hypothesis Hanswer : pumping_answer (run_total pick (add_ops ks)) root = true.
+Hypothesis T_neg : forall c m, m < 0 -> T c m = dflt.
+
+Theorem forest_pipeline_total :
+  exists res, extract fuelx root ks = Ok res /\
+    (forall i j, (i < length res)%nat -> (j < length res)%nat ->
+       parent (bk_key (nth i res (mkb dummy 0))) = parent (bk_key (nth j res (mkb dummy 0))) -> i = j) /\
+    forall spec : nat -> option (srule terms),
+      (forall k, In k res ->
+         exists r, spec (parent (bk_key k)) = Some r /\ kids (bk_key k) = r_kids terms r) ->
+      (forall c r, spec c = Some r -> forall p o n, n < 0 -> r_op terms r p o n = dflt) ->
+      (forall c r, spec c = Some r -> local terms r) ->
+      (forall c r, spec c = Some r -> genuine terms T c r) ->
+      forall n, 0 <= n ->
+      exists f0, forall f, (f0 <= f)%nat -> eval terms dflt spec f root n = T root n.
+Proof.
+  assert (Pk root ks) as HP.
+  { unfold Pk. rewrite <- keys_of_add_ops.
+    apply (proj1 (total_sound_complete pick (add_ops ks) root)). exact Hanswer. }
+  destruct (extract_total fuelx root ks Hbuckets HP) as [res Hres].
+  exists res. split; [exact Hres|]. split.
+  - exact (extract_one_rule_per_class_total fuelx root ks res Hbuckets Hres HP).
+  - intros spec Hfound Hop Hloc Hgen n Hn.
+    exact (forest_pipeline_correct terms dflt T spec pick (fuel_bound (add_ops ks)) fuelx root ks res
+             (run_total pick (add_ops ks)) (run_total_spec pick (add_ops ks)) Hanswer Hbuckets Hres
+             Hfound T_neg Hop Hloc Hgen n Hn).
+Qed.
+End PipelineTotal.
